@@ -32,7 +32,7 @@ TIERS = {
     "thorough": {"budget_s": 600, "chunk": 400, "selftest": 512, "minimise_s": 90},
 }
 PROBES = ["alias_hit", "case_fold_hit", "default_taken", "required_missing", "dependency_missing", "unknown_key",
-          "alias_conflict", "faulted_leaf", "runtime_knob"]
+          "alias_conflict", "faulted_leaf", "runtime_knob", "inherited_field_redeclared", "options_only_at_runtime"]
 
 
 def generate(rng, tier):
@@ -91,6 +91,18 @@ def generate(rng, tier):
             if not f["required"] and f["default"] == "absent":
                 f["default"] = "none"
     plan["options"] = o
+    plan["sub"] = {}
+    if kind in ("schema", "dataclass") and rng.random() < 0.25:
+        # the fields are declared in a base class; the class under test re-declares some of them without their
+        # aliases, or drops them -- the input may still use the spellings of the base class
+        for f in fields:
+            if (f["alias"] or f["alias_from"]) and rng.random() < 0.6 and not any(f["name"] in g["deps"] for g in fields):
+                plan["sub"][f["name"]] = rng.choice(["plain", "plain", "drop"])
+    if plan["knob_at"] == "runtime" and kind in ("schema", "dataclass") and rng.random() < 0.4:
+        # every option comes with the call, the class itself declares none
+        plan["runtime_only"] = True
+        if o.get("addition") == "leaf":
+            o["addition"] = rng.choice([True, False])
     # input: for each field choose which spellings are present
     pool = tdsl.PidPool()
     positions = []
@@ -174,13 +186,28 @@ def build(plan, dfs, collect):
         runtime.update(rt)
     kind = plan["kind"]
     if kind in ("schema", "dataclass"):
-        ns = {"__annotations__": {}, "__module__": "verif_c06", "__qualname__": "M", "__options__": Options(**okw)}
+        class_opts = Options(data_first_search=dfs) if plan.get("runtime_only") else Options(**okw)
+        ns = {"__annotations__": {}, "__module__": "verif_c06", "__qualname__": "M", "__options__": class_opts}
         for f in plan["fields"]:
             ns["__annotations__"][f["name"]] = tdsl.build_type(f["type"])
             fo = _field_obj(f)
             if fo is not None:
                 ns[f["name"]] = fo
-        cls = type("M", (Schema if kind == "schema" else DataClass,), ns)
+        sub = plan.get("sub") or {}
+        if sub:
+            base = type("Base_", (Schema if kind == "schema" else DataClass,), dict(ns, __qualname__="Base_"))
+            ns2 = {"__annotations__": {}, "__module__": "verif_c06", "__qualname__": "M", "__options__": class_opts}
+            for f in plan["fields"]:
+                how = sub.get(f["name"])
+                if how == "drop":
+                    ns2[f["name"]] = ...
+                elif how == "plain":
+                    ns2["__annotations__"][f["name"]] = tdsl.build_type(f["type"])
+                    if not f["required"]:
+                        ns2[f["name"]] = None
+            cls = type("M", (base,), ns2)
+        else:
+            cls = type("M", (Schema if kind == "schema" else DataClass,), ns)
         if runtime is None:
             return lambda pos, kw: cls(**kw)
         ro = Options(**runtime)
@@ -321,9 +348,14 @@ def execute(plan):
         res.stats["probe:" + p] += 1
     if plan["knob_at"] == "runtime":
         res.stats["probe:runtime_knob"] += 1
+    if plan.get("sub"):
+        res.stats["probe:inherited_field_redeclared"] += 1
+    if plan.get("runtime_only"):
+        res.stats["probe:options_only_at_runtime"] += 1
     if probes:
         res.nontrivial = kernel.digest_of([plan["kind"], plan["fields"], plan["options"], plan["knob_at"],
-                                           [k for k, v in plan["input"]], sorted(plan["faults"]["leaf"].items()), plan["positional"]])
+                                           [k for k, v in plan["input"]], sorted(plan["faults"]["leaf"].items()), plan["positional"],
+                                           sorted((plan.get("sub") or {}).items()), plan.get("runtime_only")])
     return res
 
 
@@ -427,6 +459,14 @@ def shrink(plan):
     if plan["positional"]:
         p = copy.deepcopy(plan)
         p["positional"] = 0
+        yield p
+    for k in list(plan.get("sub") or {}):
+        p = copy.deepcopy(plan)
+        p["sub"].pop(k)
+        yield p
+    if plan.get("runtime_only"):
+        p = copy.deepcopy(plan)
+        p["runtime_only"] = False
         yield p
     if plan["knob_at"] == "runtime":
         p = copy.deepcopy(plan)
